@@ -46,7 +46,7 @@ func isViperGetter(c *ssa.CallCommon) (string, bool) {
 
 func runC19(p *core.Prog, r *core.Report, tier string) {
 	ds := core.NewDescriber()
-	var getters []*ssa.Function
+	var getters, loopGetters []*ssa.Function
 	for _, f := range p.FuncsIn("util") {
 		if f.Parent() != nil || f.Object() == nil || !f.Object().Exported() {
 			continue
@@ -59,16 +59,255 @@ func runC19(p *core.Prog, r *core.Report, tier string) {
 		})
 		if self {
 			getters = append(getters, f)
+		} else if loopPathPhi(f) != nil {
+			loopGetters = append(loopGetters, f)
 		}
 	}
-	r.Count("hierarchical getters", len(getters))
-	r.Floor("C19 hierarchical getters", len(getters), 5)
+	r.Count("hierarchical getters", len(getters)+len(loopGetters))
+	r.Floor("C19 hierarchical getters", len(getters)+len(loopGetters), 5)
 	var names []string
 	for _, f := range getters {
 		names = append(names, f.Name())
 		checkHierarchical(p, r, ds, f)
 	}
+	for _, f := range loopGetters {
+		names = append(names, f.Name()+" (iterative)")
+		checkHierarchicalLoop(p, r, ds, f)
+	}
 	r.Tables["getters"] = names
+}
+
+// loopPathPhi recognises the iterative form of a hierarchical getter: a string variable that starts as a string
+// parameter and is replaced, around a loop, by a prefix slice of itself. Returns that loop-carried variable.
+func loopPathPhi(f *ssa.Function) *ssa.Phi {
+	var out *ssa.Phi
+	core.EachInstr(f, func(in ssa.Instruction) {
+		phi, ok := in.(*ssa.Phi)
+		if !ok || out != nil {
+			return
+		}
+		if b, ok := phi.Type().Underlying().(*types.Basic); !ok || b.Kind() != types.String {
+			return
+		}
+		fromParam, fromSlice := false, false
+		for _, e := range phi.Edges {
+			if _, ok := e.(*ssa.Parameter); ok {
+				fromParam = true
+			}
+			if sl, ok := e.(*ssa.Slice); ok && sl.X == ssa.Value(phi) {
+				fromSlice = true
+			}
+		}
+		if fromParam && fromSlice {
+			out = phi
+		}
+	})
+	return out
+}
+
+// checkHierarchicalLoop decides the iterative template T_loop(path):
+//   for path != "" { key := path + "." + K; if present(key) { return get(key) }; i := LastIndex(path, "."); if i == -1 { break }; path = path[0:i] }; return get(K)
+// By induction on the number of components it returns the value at the longest prefix that has one, else the base
+// value — the same function as the recursive template.
+func checkHierarchicalLoop(p *core.Prog, r *core.Report, ds *core.Describer, f *ssa.Function) {
+	base := "util." + f.Name()
+	path := loopPathPhi(f)
+	// the only way the variable changes: path[0:LastIndex(path, ".")]
+	var lastIndex *ssa.Call
+	core.EachInstr(f, func(in ssa.Instruction) {
+		if c, ok := in.(*ssa.Call); ok && c.Call.StaticCallee() != nil && c.Call.StaticCallee().Pkg != nil && c.Call.StaticCallee().Pkg.Pkg.Path() == "strings" && c.Call.StaticCallee().Name() == "LastIndex" && c.Call.Args[0] == ssa.Value(path) {
+			if s, ok := constString(c.Call.Args[1]); ok && s == "." {
+				lastIndex = c
+			}
+		}
+	})
+	r.Check(lastIndex != nil, "C19.4", base+"|last-index", p.Pos(f.Pos()), "the path is shortened at strings.LastIndex(path, \".\")", "the path is not shortened at strings.LastIndex(path, \".\") (levels would be skipped)")
+	if lastIndex == nil {
+		return
+	}
+	for i, e := range path.Edges {
+		if _, ok := e.(*ssa.Parameter); ok {
+			continue
+		}
+		sl, ok := e.(*ssa.Slice)
+		lowOK := ok && (sl.Low == nil || func() bool { c0, ok := sl.Low.(*ssa.Const); return ok && c0.Value != nil && c0.Int64() == 0 }())
+		r.Check(ok && sl.X == ssa.Value(path) && lowOK && sl.High == ssa.Value(lastIndex), "C19.4", fmt.Sprintf("%s|step#%d|shortened-path", base, i+1), p.Pos(f.Pos()),
+			"each step continues with path[0:LastIndex(path, \".\")]", "a step of the loop continues with "+ds.D(e).String()+", expected path[0:i] with i = strings.LastIndex(path, \".\")")
+	}
+	// key and presence
+	var keyCall *ssa.Call
+	var suffix string
+	var suffixParam *ssa.Parameter
+	core.EachInstr(f, func(in ssa.Instruction) {
+		c, ok := in.(*ssa.Call)
+		if !ok || c.Call.StaticCallee() == nil || c.Call.StaticCallee().Name() != "Sprintf" {
+			return
+		}
+		format, ok := constString(c.Call.Args[0])
+		if !ok || !strings.HasPrefix(format, "%s.") {
+			return
+		}
+		d := ds.D(c.Call.Args[1])
+		if d.Kind != "varargs" || len(d.Args) == 0 || (d.Args[0].Val != ssa.Value(path) && d.Args[0].String() != ds.D(path).String()) {
+			return
+		}
+		keyCall = c
+		rest := strings.TrimPrefix(format, "%s.")
+		if rest == "%s" && len(d.Args) == 2 {
+			if d.Args[1].Kind == "param" {
+				for _, prm := range f.Params {
+					if prm.Name() == d.Args[1].Name {
+						suffixParam = prm
+					}
+				}
+			} else if cs, ok := constString(d.Args[1].Val); ok {
+				suffix = cs
+			}
+		} else {
+			suffix = rest
+		}
+	})
+	if keyCall == nil {
+		r.Violate("C19.2", base+"|key", p.Pos(f.Pos()), "the lookup key is not built as <path>.<name> from the current path")
+		return
+	}
+	usesKey := func(d *core.VD) (string, bool) {
+		g, hit := "", false
+		d.Walk(func(x *core.VD) bool {
+			if x.Kind == "call" && strings.Contains(x.Name, "spf13/viper.") && len(x.Args) == 1 && x.Args[0].Val == ssa.Value(keyCall) {
+				hit = true
+				g = x.Name[strings.LastIndex(x.Name, ".")+1:]
+			}
+			return true
+		})
+		return g, hit
+	}
+	testGetter := ""
+	presence := func(c core.Cond) int {
+		if c.Op == "" {
+			if c.B != nil {
+				if g, hit := usesKey(c.B); hit {
+					testGetter = g
+					if c.BoolOnEdge(0) {
+						return 0
+					}
+					return 1
+				}
+			}
+			return -1
+		}
+		for _, side := range []*core.VD{c.X, c.Y} {
+			if g, hit := usesKey(side); hit {
+				testGetter = g
+				for s := 0; s < 2; s++ {
+					rel := c.RelOnEdge(s)
+					if side == c.Y {
+						rel = core.FlipRel(rel)
+					}
+					if rel == "!=" || rel == ">" {
+						return s
+					}
+				}
+			}
+		}
+		return -1
+	}
+	absent := func(c core.Cond) int {
+		s := presence(c)
+		if s < 0 {
+			return -1
+		}
+		return 1 - s
+	}
+	exhausted := func(c core.Cond) int {
+		// path == "" or LastIndex == -1
+		if c.Op == "" || c.X == nil || c.Y == nil {
+			return -1
+		}
+		if c.X.Val == ssa.Value(path) || c.Y.Val == ssa.Value(path) {
+			k := c.Y
+			if c.Y.Val == ssa.Value(path) {
+				k = c.X
+			}
+			if s, ok := constString(k.Val); ok && s == "" {
+				for e := 0; e < 2; e++ {
+					if c.RelOnEdge(e) == "==" {
+						return e
+					}
+				}
+			}
+		}
+		if c.X.Val == ssa.Value(lastIndex) && c.Y.Kind == "const" && c.Y.Name == "-1" {
+			for e := 0; e < 2; e++ {
+				if c.RelOnEdge(e) == "==" {
+					return e
+				}
+			}
+		}
+		return -1
+	}
+	nBase, nHit := 0, 0
+	var baseKeys []string
+	baseParam := false
+	for i, ret := range core.ReturnsOf(f) {
+		construct := fmt.Sprintf("%s|return#%d", base, i+1)
+		if len(ret.Results) != 1 {
+			continue
+		}
+		d := ds.D(ret.Results[0])
+		isRet := func(in ssa.Instruction) bool { return in == ssa.Instruction(ret) }
+		var keys []*core.VD
+		d.Walk(func(x *core.VD) bool {
+			if x.Kind == "call" && strings.Contains(x.Name, "spf13/viper.Get") && len(x.Args) == 1 {
+				keys = append(keys, x.Args[0])
+			}
+			return true
+		})
+		if len(keys) == 0 {
+			r.Violate("C19.5", construct, p.Pos(ret.Pos()), "a return that is neither the base value nor a found value: "+d.String())
+			continue
+		}
+		if keys[0].Val == ssa.Value(keyCall) {
+			nHit++
+			w := core.Unguarded(ds, f, nil, isRet, presence)
+			r.Check(w == nil, "C19.3", construct+"|presence-test", p.Pos(ret.Pos()), "the found value is returned only after a presence test on the same key", "the value at <path>.<name> is returned without a presence test on that key", p.WitnessText(w)...)
+			rt := f.Signature.Results().At(0).Type().Underlying()
+			if b, ok := rt.(*types.Basic); ok && (b.Info()&types.IsBoolean != 0 || b.Info()&types.IsInteger != 0) && !strings.HasSuffix(types.TypeString(f.Signature.Results().At(0).Type(), nil), "time.Duration") && w == nil {
+				okGetter := testGetter == "GetString" || testGetter == "IsSet" || testGetter == "Get" || testGetter == "InConfig"
+				r.Check(okGetter, "C19.3", construct+"|presence-distinguishes-zero", p.Pos(ret.Pos()), "presence is tested with "+testGetter, "presence is tested with "+testGetter+": an explicitly configured zero value at the more specific level is treated as unset")
+			}
+			continue
+		}
+		// base return
+		nBase++
+		for _, k := range keys {
+			if s, ok := constString(k.Val); ok {
+				baseKeys = append(baseKeys, s)
+			} else if k.Kind == "param" && suffixParam != nil && k.Name == suffixParam.Name() {
+				baseParam = true
+			} else {
+				r.Violate("C19.1", construct+"|base-key", p.Pos(ret.Pos()), "the top-level value is read from a computed key: "+k.String())
+			}
+		}
+		w := core.Unguarded(ds, f, nil, isRet, exhausted)
+		r.Check(w == nil, "C19.1", construct+"|base", p.Pos(ret.Pos()), "the top-level value is returned only when the path is used up (empty, or no more dots)", "the top-level value can be returned although more specific levels remain", p.WitnessText(w)...)
+	}
+	if suffixParam != nil {
+		r.Check(baseParam, "C19.2", base+"|suffix-equals-base", p.Pos(keyCall.Pos()), "the per-level key uses the same variable name as the top-level lookup", "the per-level key uses the variable parameter but the top-level lookup does not")
+	} else {
+		ok := false
+		for _, k := range baseKeys {
+			if k == suffix {
+				ok = true
+			}
+		}
+		r.Check(ok, "C19.2", base+"|suffix-equals-base", p.Pos(keyCall.Pos()), fmt.Sprintf("per-level key suffix %q is the base key", suffix), fmt.Sprintf("per-level key suffix %q differs from the top-level key(s) %v", suffix, baseKeys))
+	}
+	r.Check(nBase >= 1, "C19.1", base+"|has-base-return", p.Pos(f.Pos()), "has a top-level return", "no top-level return")
+	r.Check(nHit >= 1, "C19.3", base+"|has-hit-return", p.Pos(f.Pos()), "has a found-value return", "no return of the value found at <path>.<name>")
+	// a level is left (shortened, or given up for the top level) only after its own key was found absent
+	wStep := core.Unguarded(ds, f, nil, func(in ssa.Instruction) bool { return in == ssa.Instruction(lastIndex) }, absent)
+	r.Check(wStep == nil, "C19.4", base+"|only-after-absent", p.Pos(lastIndex.Pos()), "a level is left only after its presence test failed", "a level can be left without its own key having been tested: a value configured at that level is skipped", p.WitnessText(wStep)...)
 }
 
 func checkHierarchical(p *core.Prog, r *core.Report, ds *core.Describer, f *ssa.Function) {
@@ -188,6 +427,57 @@ func checkHierarchical(p *core.Prog, r *core.Report, ds *core.Describer, f *ssa.
 			}
 		}
 	})
+	// presence test on the same key
+	var testGetter string
+	presence := func(c core.Cond) int {
+		if c.Op == "" {
+			// boolean getter used directly as the test
+			if c.B != nil {
+				var g string
+				hit := false
+				c.B.Walk(func(x *core.VD) bool {
+					if x.Kind == "call" && strings.Contains(x.Name, "spf13/viper.") && len(x.Args) == 1 && x.Args[0].Val == ssa.Value(keyCall) {
+						hit = true
+						g = x.Name[strings.LastIndex(x.Name, ".")+1:]
+					}
+					return true
+				})
+				if hit {
+					testGetter = g
+					if c.BoolOnEdge(0) {
+						return 0
+					}
+					return 1
+				}
+			}
+			return -1
+		}
+		for _, side := range []*core.VD{c.X, c.Y} {
+			hit := false
+			g := ""
+			side.Walk(func(x *core.VD) bool {
+				if x.Kind == "call" && strings.Contains(x.Name, "spf13/viper.") && len(x.Args) == 1 && x.Args[0].Val == ssa.Value(keyCall) {
+					hit = true
+					g = x.Name[strings.LastIndex(x.Name, ".")+1:]
+				}
+				return true
+			})
+			if hit {
+				testGetter = g
+				// the edge on which the value is "present": != zero / > 0
+				for s := 0; s < 2; s++ {
+					rel := c.RelOnEdge(s)
+					if side == c.Y {
+						rel = core.FlipRel(rel)
+					}
+					if rel == "!=" || rel == ">" {
+						return s
+					}
+				}
+			}
+		}
+		return -1
+	}
 	for i, ret := range core.ReturnsOf(f) {
 		construct := fmt.Sprintf("%s|return#%d", base, i+1)
 		if len(ret.Results) != 1 {
@@ -198,7 +488,7 @@ func checkHierarchical(p *core.Prog, r *core.Report, ds *core.Describer, f *ssa.
 		// recursive?
 		if c, ok := ret.Results[0].(*ssa.Call); ok && c.Call.StaticCallee() == f {
 			nRec++
-			checkRecursion(p, r, ds, f, c, path, lastIndex, construct, &sawTop, &sawShort)
+			checkRecursion(p, r, ds, f, c, path, lastIndex, construct, &sawTop, &sawShort, presence)
 			continue
 		}
 		if d.MentionsCall(core.FnKey(f)) {
@@ -236,57 +526,6 @@ func checkHierarchical(p *core.Prog, r *core.Report, ds *core.Describer, f *ssa.
 			nHit++
 			for _, k := range keys {
 				r.Check(k.Val == ssa.Value(keyCall), "C19.3", construct+"|returned-key", p.Pos(ret.Pos()), "the value returned is read from <path>.<name>", "the value returned is read from "+k.String()+", not from the key that was tested")
-			}
-			// presence test on the same key
-			var testGetter string
-			presence := func(c core.Cond) int {
-				if c.Op == "" {
-					// boolean getter used directly as the test
-					if c.B != nil {
-						var g string
-						hit := false
-						c.B.Walk(func(x *core.VD) bool {
-							if x.Kind == "call" && strings.Contains(x.Name, "spf13/viper.") && len(x.Args) == 1 && x.Args[0].Val == ssa.Value(keyCall) {
-								hit = true
-								g = x.Name[strings.LastIndex(x.Name, ".")+1:]
-							}
-							return true
-						})
-						if hit {
-							testGetter = g
-							if c.BoolOnEdge(0) {
-								return 0
-							}
-							return 1
-						}
-					}
-					return -1
-				}
-				for _, side := range []*core.VD{c.X, c.Y} {
-					hit := false
-					g := ""
-					side.Walk(func(x *core.VD) bool {
-						if x.Kind == "call" && strings.Contains(x.Name, "spf13/viper.") && len(x.Args) == 1 && x.Args[0].Val == ssa.Value(keyCall) {
-							hit = true
-							g = x.Name[strings.LastIndex(x.Name, ".")+1:]
-						}
-						return true
-					})
-					if hit {
-						testGetter = g
-						// the edge on which the value is "present": != zero / > 0
-						for s := 0; s < 2; s++ {
-							rel := c.RelOnEdge(s)
-							if side == c.Y {
-								rel = core.FlipRel(rel)
-							}
-							if rel == "!=" || rel == ">" {
-								return s
-							}
-						}
-					}
-				}
-				return -1
 			}
 			w := core.Unguarded(ds, f, nil, isRet, presence)
 			r.Check(w == nil, "C19.3", construct+"|presence-test", p.Pos(ret.Pos()), "the found value is returned only after a presence test on the same key", "the value at <path>.<name> is returned without a presence test on that key", p.WitnessText(w)...)
@@ -327,7 +566,7 @@ func checkHierarchical(p *core.Prog, r *core.Report, ds *core.Describer, f *ssa.
 	r.Check(lastIndex != nil, "C19.4", base+"|last-index", p.Pos(f.Pos()), "the path is shortened at strings.LastIndex(path, \".\")", "the path is not shortened at strings.LastIndex(path, \".\") (levels would be skipped)")
 }
 
-func checkRecursion(p *core.Prog, r *core.Report, ds *core.Describer, f *ssa.Function, c *ssa.Call, path *ssa.Parameter, lastIndex *ssa.Call, construct string, sawTop, sawShort *bool) {
+func checkRecursion(p *core.Prog, r *core.Report, ds *core.Describer, f *ssa.Function, c *ssa.Call, path *ssa.Parameter, lastIndex *ssa.Call, construct string, sawTop, sawShort *bool, presence core.GuardSpec) {
 	// which argument is the path
 	k := -1
 	for i, prm := range f.Params {
@@ -344,6 +583,16 @@ func checkRecursion(p *core.Prog, r *core.Report, ds *core.Describer, f *ssa.Fun
 			r.Check(a == ssa.Value(f.Params[i]), "C19.4", fmt.Sprintf("%s|other-arg#%d", construct, i), p.Pos(c.Pos()), "other arguments passed through", "the fallback lookup changes argument "+f.Params[i].Name())
 		}
 	}
+	// the less specific level is consulted only after this level was found to have no value
+	wAbs := core.Unguarded(ds, f, nil, func(in ssa.Instruction) bool { return in == ssa.Instruction(c) }, func(cd core.Cond) int {
+		s := presence(cd)
+		if s < 0 {
+			return -1
+		}
+		return 1 - s
+	})
+	r.Check(wAbs == nil, "C19.4", construct+"|only-after-absent", p.Pos(c.Pos()), "the fallback lookup is made only after the presence test at this level failed",
+		"the fallback lookup is reachable without this level's own key having been tested: a value configured at this level is skipped", p.WitnessText(wAbs)...)
 	arg := c.Call.Args[k]
 	leaves := core.FeasibleLeaves(f, arg, c)
 	if len(leaves) == 0 {
